@@ -125,7 +125,7 @@ PROPS["C15"] = {
             "the exact complement; every case is counted non-trivial (generated at the boundary); distinct = distinct (op, arg, input, flags)",
     "essential": {"all": ["match:pm", "nomatch:pm", "match:pmFromFile", "match:pmFromDataset", "match:ipMatch", "nomatch:ipMatch", "match:validateByteRange",
                           "nomatch:validateByteRange", "match:validateUrlEncoding", "nomatch:validateUrlEncoding", "match:validateUtf8Encoding",
-                          "match:rx", "nomatch:rx", "rx-with-prefilter", "capture-checked", "capture-10-groups", "macro-argument", "match:within", "match:streq", "nomatch:streq"]},
+                          "match:rx", "nomatch:rx", "rx-with-prefilter", "capture-checked", "capture-10-groups", "capture-group-outside-the-match", "macro-argument", "match:within", "match:streq", "nomatch:streq"]},
     "assumptions": COMMON_ASSUME + [
         "Go's regexp with (?sm) is the trusted base for @rx; net.ParseCIDR for IPv6 networks; @pm captures are checked with a validity predicate "
         "(overlapping hits are allowed: the matcher's iteration order is not documented)",
